@@ -357,6 +357,55 @@ func eligibleFunc(ftype *ast.FuncType, recv *ast.FieldList, body *ast.BlockStmt,
 	return true, ""
 }
 
+// constTableFunc: a plain function of one scalar parameter and one integer result whose body only branches
+// (switch / if) and returns constants, at least three of them (a lookup table written as code).
+func constTableFunc(fd *ast.FuncDecl, info *types.Info) bool {
+	if fd.Recv != nil || fd.Type.Params == nil || fd.Type.Results == nil || fd.Body == nil {
+		return false
+	}
+	np := 0
+	for _, f := range fd.Type.Params.List {
+		n := len(f.Names)
+		if n == 0 {
+			n = 1
+		}
+		np += n
+		if tv, ok := info.Types[f.Type]; !ok || tv.Type == nil {
+			return false
+		} else if _, isB := tv.Type.Underlying().(*types.Basic); !isB {
+			return false
+		}
+	}
+	if np != 1 || len(fd.Type.Results.List) != 1 || len(fd.Type.Results.List[0].Names) > 0 {
+		return false
+	}
+	if tv, ok := info.Types[fd.Type.Results.List[0].Type]; !ok || tv.Type == nil {
+		return false
+	} else if b, isB := tv.Type.Underlying().(*types.Basic); !isB || b.Info()&types.IsInteger == 0 {
+		return false // (a two-way choice or a function to strings is inlined like any other helper)
+	}
+	okAll, nRet := true, 0
+	ast.Inspect(fd.Body, func(n ast.Node) bool {
+		switch x := n.(type) {
+		case *ast.ReturnStmt:
+			nRet++
+			if len(x.Results) != 1 {
+				okAll = false
+			} else if tv, ok := info.Types[x.Results[0]]; !ok || tv.Value == nil {
+				okAll = false
+			}
+		case *ast.AssignStmt, *ast.IncDecStmt, *ast.GoStmt, *ast.DeferStmt, *ast.ForStmt, *ast.RangeStmt, *ast.SendStmt, *ast.FuncLit:
+			okAll = false
+		case *ast.CallExpr:
+			if tv, ok := info.Types[x.Fun]; !ok || !tv.IsType() {
+				okAll = false
+			}
+		}
+		return okAll
+	})
+	return okAll && nRet >= 3
+}
+
 // forCondOf: the for statement without init and post statements whose condition contains n.
 func forCondOf(parents map[ast.Node]ast.Node, n ast.Node) *ast.ForStmt {
 	child := n
@@ -420,6 +469,11 @@ var inlineCounter int
 // inlineRound performs one round over the package; returns whether any file changed.
 func inlineRound(sp *srcPkg, res *inlineResult, round int) (bool, error) {
 	info := sp.info
+	var roleFiles []*ast.File
+	for _, f := range sp.files {
+		roleFiles = append(roleFiles, f.ast)
+	}
+	roleAlias := roleAliasesOfSource(roleFiles, info, sp.pkg, sp.path)
 	cands := map[*types.Func]*helperCand{}
 	declFile := map[*ast.FuncDecl]*srcFile{}
 	candDecl := map[*ast.FuncDecl]bool{}
@@ -441,9 +495,17 @@ func inlineRound(sp *srcPkg, res *inlineResult, round int) (bool, error) {
 			if knownHelpers[key] {
 				continue
 			}
+			if _, renamed := roleAlias[key]; renamed {
+				continue // a reference helper under a new name: stays a function
+			}
 			if fd.Recv == nil && tagSiblings[sp.path][fd.Name.Name] {
 				// a function that the other build-tag variant of the package declares too stays a function: the two
 				// variants are compared with each other (rule *.tags)
+				continue
+			}
+			if constTableFunc(fd, info) {
+				// a function from one scalar to constants (a lookup written as a switch): kept a function, the rules
+				// evaluate it for the constant arguments it is called with (CONSTTABLE)
 				continue
 			}
 			ok, why := eligibleHelper(fd, info, obj)
